@@ -143,7 +143,8 @@ class C19(Prop):
             blob = None
             if rng.random() < 0.05:
                 blob = rng.choice(['ff', 'fe0000', '00', 'fe00000901'])
-            case = {'ty': rng.choice(TYPES), 'ver': rng.choice(['none', 'std', 'std']), 'routes': routes, 'unknown': unknown, 'items': items, 'blob': blob}
+            case = {'ty': rng.choice(TYPES), 'ver': rng.choice(['none', 'std', 'std']), 'routes': routes, 'unknown': unknown, 'items': items, 'blob': blob,
+                    'ver_obj': rng.random() < 0.3}
             # earlier requests on the same connection (same handler instance) must not influence this one: same or other credentials,
             # same or other type / route; optionally still in flight (its verifier call suspended) when the judged request arrives
             if rng.random() < 0.5:
@@ -197,7 +198,12 @@ class C19(Prop):
             ok = (isinstance(auth, AuthenticationBearer) and auth.token == b'g') or (isinstance(auth, AuthenticationSimple) and auth.username == b'u')
             if not ok:
                 raise Exception('rejected')
-        handler = RoutingRequestHandler(router, verifier if case['ver'] == 'std' else None)
+        class StoreVerifier(dict):
+            """a verifier that is a callable object with a truth value of its own (a token store that happens to be empty: falsy) —
+            configured is configured: the gate applies"""
+            async def __call__(self, route, auth):
+                return await verifier(route, auth)
+        handler = RoutingRequestHandler(router, (StoreVerifier() if case.get('ver_obj') else verifier) if case['ver'] == 'std' else None)
         blob = self._blob(case)
         payload = Payload(b'data', blob)
         meth = {'r': handler.request_response, 's': handler.request_stream, 'c': handler.request_channel, 'f': handler.request_fire_and_forget,
